@@ -476,8 +476,18 @@ def run_check(prop, tier):
             continue
         key = (part["scenario"], v["rule"])
         seen_rules.setdefault(key, []).append((part, seed, o, v))
+    # A rule is reported with the first of its runs whose (minimised) plan reproduces it when replayed; runs whose
+    # replay does not reproduce (state outside the simulator's reach, e.g. sync.Pool reuse) are tried in turn, up to
+    # five, and only if none reproduces is the rule downgraded to an infrastructure error.
+    work = []
     for key, items in seen_rules.items():
-        part, seed, o, v = items[0]
+        for k, it in enumerate(items[:5]):
+            work.append((key, items, it, k == min(len(items), 5) - 1))
+    done_rules = set()
+    for key, items, item, last_try in work:
+        if key in done_rules:
+            continue
+        part, seed, o, v = item
         binary = built[part["module"]]
         plan = o.get("plan")
         mfrom = None
@@ -509,12 +519,14 @@ def run_check(prop, tier):
             stable = (out3 or {}).get("log_hash", "") == lh
             replay = write_replay(prop, part["scenario"], part["module"], seed, plan, v, lh, mfrom)
             if not reproduced:
-                infra_msgs.append("violation %s/%s at seed %d did not reproduce from its replay file %s" % (prop, v["rule"], seed, replay))
+                if last_try:
+                    infra_msgs.append("violation %s/%s at seed %d did not reproduce from its replay file %s (nor did %d other run(s) with the same rule)" % (prop, v["rule"], seed, replay, min(len(items), 5) - 1))
                 continue
             if not stable:
                 infra_msgs.append("replay %s is not deterministic (log hashes differ)" % replay)
         else:
             replay = write_replay(prop, part["scenario"], part["module"], seed, {"generated_from_seed": seed, "variant": part.get("variant", "")}, v, o.get("log_hash", ""))
+        done_rules.add(key)
         reported.append((replay, v, len(items)))
         lines.append("VIOLATION property=%s replay=%s" % (prop, replay))
         lines.append("  rule=%s count=%d detail=%s" % (v["rule"], len(items), v["detail"][:600]))
